@@ -12,6 +12,8 @@ def site_families():
     fams.append(('Boson[N,Nmax=2]', lambda: S.BosonSite(Nmax=2, conserve='N')))
     fams.append(('Spin1[Sz]', lambda: S.SpinSite(S=1.0, conserve='Sz', sort_charge=True)))
     fams.append(('SpinHalfFermion[N,Sz]', lambda: S.SpinHalfFermionSite(cons_N='N', cons_Sz='Sz')))
+    # sort_charge permutation [0, 3, 1, 2]: not an involution (perm and its inverse must not be mixed up)
+    fams.append(('SpinHalfFermion[parity]', lambda: S.SpinHalfFermionSite(cons_N='parity', cons_Sz=None)))
 
     # heterogeneous chains (sites of different type and dimension next to each other)
     def mixed_FS(L):
